@@ -722,6 +722,79 @@ def run_c08(rep, tier):
                             r, m = ob.check(asserts + [z3.Or(*diffs)])
                             if r == "sat":
                                 problems.append(dict(kind="compute_string", detail=f"n={n}: spelling does not quote the string itself"))
+    # ---- compute_hash: (a) on a plain name the text inside the verbose spelling is the text that is
+    # hashed; (b) on its own verbose spelling HASH("<name>") - what a variable holding a hash constant
+    # carries into a second call - it hashes <name> itself and prints the same spelling again
+    ob.functions.add("types.compute_hash")
+    ALPHA = [ord(x) for x in 'a)("H '] + [0x5C]
+    rec = {}
+
+    def _rec_calc_hash(nm_):
+        rec["arg"] = nm_
+        return E.SInt(z3.BitVec("hv", 64))
+
+    t.__dict__["calc_hash"] = _rec_calc_hash
+    for form in ("plain", "token"):
+        for n in range(1, 5 if tier == "thorough" else 4):
+            def fn_ch():
+                rec.clear()
+                cs = e3.sym_chars("hn", n, ALPHA, E.ctx())
+                nm = e3.SymStr(cs)
+                arg = nm if form == "plain" else e3.SymStr([ord(x) for x in 'HASH("'] + cs + [ord(x) for x in '")'])
+                sp = t.compute_hash(arg, OM.VERBOSE)
+                return nm, sp, rec.get("arg")
+
+            paths, c = E.explore(fn_ch, max_paths=600)
+            ob.paths += len(paths)
+            for pc, out, asserts in paths:
+                if out[0] == "gap":
+                    ob.gaps += 1
+                    continue
+                if out[0] == "raise":
+                    continue  # rejecting a name is not a verbose/compact disagreement
+                nm, sp, hashed = out[1]
+                bad = None
+                if not isinstance(sp, e3.SymStr) or not isinstance(hashed, e3.SymStr):
+                    bad = f"spelling / hashed text are {type(sp).__name__} / {type(hashed).__name__}"
+                else:
+                    want_sp = [ord(x) for x in 'HASH("'] + hashed.c + [ord(x) for x in '")']
+                    conds = []
+                    if len(sp.c) != len(want_sp):
+                        bad = "the verbose spelling does not quote the text that is hashed"
+                    else:
+                        conds += [a != b for a, b in zip(sp.c, want_sp) if not (isinstance(a, int) and isinstance(b, int) and a == b)]
+                    if form == "token" and bad is None:
+                        if len(hashed.c) != len(nm.c):
+                            bad = "the text hashed for HASH(\"<name>\") is not <name>"
+                        else:
+                            conds += [a != b for a, b in zip(hashed.c, nm.c) if not (isinstance(a, int) and isinstance(b, int) and a == b)]
+                    if bad is None and conds:
+                        r, m = ob.check(asserts + [z3.Or(*[z3.BoolVal(x) if isinstance(x, bool) else x for x in conds])])
+                        if r == "sat":
+                            bad = "the verbose spelling / the hashed text differ from the name"
+                        elif r != "unsat":
+                            problems.append(dict(kind="inconclusive", detail=f"compute_hash {form} n={n}: {r}"))
+                if bad:
+                    # replay a model of this path on the real function
+                    s_ = z3.Solver()
+                    s_.add(*asserts)
+                    if str(s_.check()) != "sat":
+                        continue
+                    m_ = s_.model()
+                    txt = "".join(chr(m_.eval(z3.Int(f"hn{i}"), model_completion=True).as_long()) for i in range(n))
+                    from stationeers_pytrapic import types as real_types
+                    from stationeers_pytrapic.utils import OutputMode as ROM
+
+                    a_ = txt if form == "plain" else f'HASH("{txt}")'
+                    try:
+                        v_sp = real_types.compute_hash(a_, ROM.VERBOSE)
+                        v_num = real_types.compute_hash(a_, ROM.NUMERIC)
+                    except Exception:
+                        continue
+                    inner = v_sp[6:-2] if isinstance(v_sp, str) and v_sp.startswith('HASH("') and v_sp.endswith('")') else None
+                    ok = inner is not None and hash_signed_ref(inner) == v_num and (form == "plain" or (inner == txt and v_sp == a_))
+                    if not ok:
+                        problems.append(dict(kind="compute_hash", detail=f"compute_hash({a_!r}): verbose {v_sp!r}, numeric {v_num} (signed CRC-32 of {txt!r} is {hash_signed_ref(txt)}): {bad}"))
     # ---- _apply_output_mode on an arbitrary number and spelling
     num = z3.BitVec("num", 64)
     for mode in (OM.NUMERIC, OM.VERBOSE, OM.COMPACT):
@@ -754,8 +827,11 @@ def run_c08(rep, tier):
     try:
         for name, cls in vars(tg).items():
             if isinstance(cls, type) and issubclass(cls, _enum.IntEnum) and not name.startswith("_"):
-                for mbr in cls:
+                for mname_, mbr in cls.__members__.items():
                     n_members += 1
+                    if mname_ != mbr.name:
+                        problems.append(dict(kind="format_enum", detail=f"{name}.{mname_} shares its number {mbr.value} with {name}.{mbr.name}: verbose prints the other name"))
+                        continue
                     real_utils.set_output_mode(real_utils.OutputMode.COMPACT)
                     c_ = real_utils.format_enum(mbr)
                     real_utils.set_output_mode(real_utils.OutputMode.VERBOSE)
